@@ -1430,13 +1430,14 @@ class Lib:
                     raise E.Unsupported(f"call to {fc.key} with frame *")
                 else:
                     heapkeys.append(m.split("@")[0])
-            if heapkeys:
-                eng.havoc_heap(st, heapkeys)
-                self.frame_axioms(st, fc, pre)
-            # the callee may allocate
+            # the callee may allocate (before the havoc: the facts about the
+            # havocked fields are bounded by the NEW allocation frontier)
             nr = st.fresh("next_ref", IntS)
             st.assume(nr >= st.next_ref)
             st.next_ref = nr
+            if heapkeys:
+                eng.havoc_heap(st, heapkeys)
+                self.frame_axioms(st, fc, pre)
             if fc.fs_effects is not None:
                 ghosts = [g for g in ghosts if g != "fs"]
             self.havoc_ghosts(st, ghosts, False)
